@@ -173,10 +173,8 @@ Definition run (f : flags) (e : env) : list event * Z :=
         (match d with
          | Rejected _ => ([Diag Logger], 1)
          | HelpMarkdown =>
-             match e_write e Stdout HelpDoc with
-             | IoOk => ([Written Stdout HelpDoc], 0)
-             | _ => ([WriteFailed Stdout HelpDoc; PanicEv], 101)
-             end
+             (* print_help_markdown(&mut std::io::stdout())?; return Ok(());   (F-C20e, fixed: was .expect(..), a panic) *)
+             do_writes e [(Stdout, HelpDoc)]
          | Plan p => exec p e
          end)
   end.
